@@ -68,7 +68,7 @@ package runtime
 //@   requires target(b.b) == b.Underlying
 //@   modifies doc(b), failedDuring
 //@   ensures isPrefix(old(out(b.Underlying)), out(b.Underlying)) && isPrefix(out(b.Underlying), cat(old(doc(b)), s))
-//@   ensures implies(err == nil, doc(b) == cat(old(doc(b)), s) && failedDuring == old(failedDuring))
+//@   ensures implies(err == nil, doc(b) == cat(old(doc(b)), s) && isPrefix(old(doc(b)), doc(b)) && failedDuring == old(failedDuring))
 //@   ensures implies(err != nil, failedDuring)
 //@   ensures implies(old(failedDuring), failedDuring)
 
@@ -77,7 +77,7 @@ package runtime
 //@   requires target(b.b) == b.Underlying
 //@   modifies doc(b), failedDuring
 //@   ensures isPrefix(old(out(b.Underlying)), out(b.Underlying)) && isPrefix(out(b.Underlying), cat(old(doc(b)), p))
-//@   ensures implies(err == nil, doc(b) == cat(old(doc(b)), p) && failedDuring == old(failedDuring))
+//@   ensures implies(err == nil, doc(b) == cat(old(doc(b)), p) && isPrefix(old(doc(b)), doc(b)) && failedDuring == old(failedDuring))
 //@   ensures implies(err != nil, failedDuring)
 //@   ensures implies(old(failedDuring), failedDuring)
 
@@ -116,4 +116,23 @@ package runtime
 //@   ensures implies(dyntype(w, *Buffer) && old(sticky(payload(w, *Buffer).b)) == nil, isPrefix(out(underlying(w)), old(doc(payload(w, *Buffer)))))
 //@   ensures implies(dyntype(w, *Buffer) && old(sticky(payload(w, *Buffer).b)) != nil, err != nil)
 //@   ensures implies(err != nil, failedDuring)
+//@   ensures implies(old(failedDuring), failedDuring)
+
+// WriteString (static template text; in development mode the text comes from the
+// watched text file, see C16): the error of the underlying write is returned.
+//@ func WriteString [C10, C16]
+//@   requires index >= 1
+//@   modifies doc(w), failedDuring
+//@   ensures isPrefix(old(sink(w)), sink(w))
+//@   ensures implies(err == nil, isPrefix(old(doc(w)), doc(w)) && failedDuring == old(failedDuring))
+//@   ensures implies(err != nil, failedDuring)
+//@   ensures implies(old(failedDuring), failedDuring)
+
+// SanitizeStyleAttributeValues: a non-nil error among the values is returned
+// (trusted here; the sanitising half is C05).
+//@ func SanitizeStyleAttributeValues [C10]
+//@   trusted
+//@   modifies failedDuring
+//@   ensures implies(result1 == nil, noErrorIn(values) && failedDuring == old(failedDuring))
+//@   ensures implies(result1 != nil, failedDuring)
 //@   ensures implies(old(failedDuring), failedDuring)
